@@ -940,6 +940,7 @@ class InstructionCollection:
 
         class shift_cl_base(X86Instruction):
             rm = Operand("rm", rm_modes, write=True)
+            implicit_uses = (cl,)
             tokens = bit_tokens
             patterns = {"opcode": 0xD3}
             for k, v in extra_patterns.items():
@@ -1032,6 +1033,7 @@ CmpImm = make_regimm("cmp", 0x81, 7)
 
 class shift8_cl_base(X86Instruction):
     rm = Operand("rm", rm8_modes, write=True)
+    implicit_uses = (cl,)
     tokens = [RexToken, OpcodeToken, ModRmToken]
     patterns = {"opcode": 0xD2}
     opcode = 0xD2
@@ -2019,6 +2021,7 @@ def pattern_shr_i64(context, tree, c0, c1):
     d = context.new_reg(Register64)
     context.move(d, c0)
     context.move(rcx, c1)
+    context.emit(RegisterUseDef(uses=(rcx,), defs=(cl,)))
     context.emit(bits64.SarCl(RmReg64(d)))
     return d
 
@@ -2028,6 +2031,7 @@ def pattern_shr_u64(context, tree, c0, c1):
     d = context.new_reg(Register64)
     context.move(d, c0)
     context.move(rcx, c1)
+    context.emit(RegisterUseDef(uses=(rcx,), defs=(cl,)))
     context.emit(bits64.ShrCl(RmReg64(d)))
     return d
 
@@ -2037,6 +2041,7 @@ def pattern_shr_i32(context, tree, c0, c1):
     d = context.new_reg(Register32)
     context.move(d, c0)
     context.move(ecx, c1)
+    context.emit(RegisterUseDef(uses=(ecx,), defs=(cl,)))
     context.emit(bits32.SarCl(RmReg32(d)))
     return d
 
@@ -2046,6 +2051,7 @@ def pattern_shr_u32(context, tree, c0, c1):
     d = context.new_reg(Register32)
     context.move(d, c0)
     context.move(ecx, c1)
+    context.emit(RegisterUseDef(uses=(ecx,), defs=(cl,)))
     context.emit(bits32.ShrCl(RmReg32(d)))
     return d
 
@@ -2055,6 +2061,7 @@ def pattern_shr_i16(context, tree, c0, c1):
     d = context.new_reg(Register16)
     context.move(d, c0)
     context.move(cx, c1)
+    context.emit(RegisterUseDef(uses=(cx,), defs=(cl,)))
     context.emit(bits16.SarCl(RmReg16(d)))
     return d
 
@@ -2064,6 +2071,7 @@ def pattern_shr_u16(context, tree, c0, c1):
     d = context.new_reg(Register16)
     context.move(d, c0)
     context.move(cx, c1)
+    context.emit(RegisterUseDef(uses=(cx,), defs=(cl,)))
     context.emit(bits16.ShrCl(RmReg16(d)))
     return d
 
@@ -2092,6 +2100,7 @@ def pattern_shl64(context, tree, c0, c1):
     d = context.new_reg(Register64)
     context.move(d, c0)
     context.move(rcx, c1)
+    context.emit(RegisterUseDef(uses=(rcx,), defs=(cl,)))
     context.emit(bits64.ShlCl(RmReg64(d)))
     return d
 
@@ -2102,6 +2111,7 @@ def pattern_shl_32(context, tree, c0, c1):
     d = context.new_reg(Register32)
     context.move(d, c0)
     context.move(ecx, c1)
+    context.emit(RegisterUseDef(uses=(ecx,), defs=(cl,)))
     context.emit(bits32.ShlCl(RmReg32(d)))
     return d
 
@@ -2112,6 +2122,7 @@ def pattern_shl_16(context, tree, c0, c1):
     d = context.new_reg(Register16)
     context.move(d, c0)
     context.move(cx, c1)
+    context.emit(RegisterUseDef(uses=(cx,), defs=(cl,)))
     context.emit(bits16.ShlCl(RmReg16(d)))
     return d
 
